@@ -2,3 +2,4 @@ import VrpModel.Num
 import VrpModel.Qubo
 import VrpModel.Graph
 import VrpModel.Sampler
+import VrpModel.Mirp
